@@ -86,7 +86,7 @@ Theorem c12_pack_unpack : forall c nal maxp rate s ts pls,
   single_type_ok c nal -> rate_ok rate -> s < 65536 ->
   pack_nal true c nal maxp = Ok pls ->
   frame_good (proto_of_codec c) rate (mk_upkts (proto_of_codec c) s ts pls)
-             [(ts / (rate / 1000), avcc nal)].
+             [(rtp_ms rate ts, avcc nal)].
 Proof. exact video_frame_good. Qed.
 Print Assumptions c12_pack_unpack.
 
@@ -98,7 +98,7 @@ Theorem c12_pack_unpack_container : forall c nal maxp rate w s ts pls,
   pack_nal true c nal maxp = Ok pls ->
   (Z.of_nat (length pls) <= w)%Z -> N.of_nat (length pls) <= 32768 ->
   feed_all (proto_of_codec c) rate w c_init (map upkt_arrival (mk_upkts (proto_of_codec c) s ts pls))
-  = Ok (mk_cstate [] 0 true (seq_add s (lenN pls - 1)), [(ts / (rate / 1000), avcc nal)]).
+  = Ok (mk_cstate [] 0 true (seq_add s (lenN pls - 1)), [(rtp_ms rate ts, avcc nal)]).
 Proof. exact video_inorder_fresh. Qed.
 Print Assumptions c12_pack_unpack_container.
 
@@ -146,14 +146,14 @@ Print Assumptions c12_pack_unpack_pinned_refuted.
 (* (3) audio: AAC (one AU header, len < 8192), G.711 / Opus (raw) *)
 Theorem c12_audio_aac : forall frame maxp rate s ts,
   0 < maxp -> lenN frame < 8192 -> rate_ok rate ->
-  frame_good PAac rate (mk_upkts PAac s ts (pack_aac frame maxp)) [(ts / (rate / 1000), frame)]
+  frame_good PAac rate (mk_upkts PAac s ts (pack_aac frame maxp)) [(rtp_ms rate ts, frame)]
   /\ rfc3640_depack (pack_aac frame maxp) = Some [frame].
 Proof. intros. split; [apply aac_frame_good|apply rfc3640_pack_aac]; assumption. Qed.
 Print Assumptions c12_audio_aac.
 
 Theorem c12_audio_raw : forall frame maxp rate s ts,
   0 < maxp -> rate_ok rate ->
-  frame_good PRaw rate (mk_upkts PRaw s ts (pack_raw frame maxp)) [(ts / (rate / 1000), frame)]
+  frame_good PRaw rate (mk_upkts PRaw s ts (pack_raw frame maxp)) [(rtp_ms rate ts, frame)]
   /\ pack_raw frame maxp = [frame].
 Proof.
   intros. split; [apply raw_frame_good; assumption|].
@@ -244,7 +244,7 @@ Theorem c12_reorder_video : forall c maxp rate w d nals sched,
   (forall i, (i < length (pkts s))%nat -> In i sched) ->
   feed_all (proto_of_codec c) rate w (primed d) (map (fun i => upkt_arrival (pkt_at s i)) sched)
   = Ok (mk_cstate [] 0 true (seq_add d (N.of_nat (length (pkts s)))),
-        map (fun tn => (fst tn / (rate / 1000), avcc (snd tn))) nals).
+        map (fun tn => (rtp_ms rate (fst tn), avcc (snd tn))) nals).
 Proof.
   intros c maxp rate w d nals sched Hh Hr Hd Hn s Hok Hall.
   assert (Hwf : stream_wf (proto_of_codec c) rate d s).
@@ -264,12 +264,12 @@ Theorem c12_reorder_audio : forall maxp rate w d frames sched,
    sched_ok w (init_astate s) sched -> (forall i, (i < length (pkts s))%nat -> In i sched) ->
    feed_all PAac rate w (primed d) (map (fun i => upkt_arrival (pkt_at s i)) sched)
    = Ok (mk_cstate [] 0 true (seq_add d (N.of_nat (length (pkts s)))),
-         map (fun tf => (fst tf / (rate / 1000), snd tf)) frames)) /\
+         map (fun tf => (rtp_ms rate (fst tf), snd tf)) frames)) /\
   (let s := unit_stream PRaw (seq_succ d) (map (raw_unit maxp rate) frames) in
    sched_ok w (init_astate s) sched -> (forall i, (i < length (pkts s))%nat -> In i sched) ->
    feed_all PRaw rate w (primed d) (map (fun i => upkt_arrival (pkt_at s i)) sched)
    = Ok (mk_cstate [] 0 true (seq_add d (N.of_nat (length (pkts s)))),
-         map (fun tf => (fst tf / (rate / 1000), snd tf)) frames)).
+         map (fun tf => (rtp_ms rate (fst tf), snd tf)) frames)).
 Proof.
   intros maxp rate w d frames sched Hm Hr Hd. split.
   - intros Hl s Hok Hall.
